@@ -63,7 +63,8 @@ def build(ck):
             try:
                 part(ck)
             except (pyk.OutOfDate, RuntimeError, AssertionError, AttributeError, TypeError) as ex_:
-                ck.error(f"E2 encoding out of date in {part.__name__}: {ex_!r}")
+                # all-N part inconclusive for this tree (never a pass); the E1 obligations at concrete N still decide the property
+                ck.add_direct(f"E2/{part.__name__}/encoding", "unknown", family="E2 scalar kernels (symbolic N)", detail=f"E2 extractor does not recognise the current source: {ex_!r}")
 
 
 def _want(ck, tag):
